@@ -1,6 +1,6 @@
 (* C09 — shape of the generated cases and the two executable verdicts. No proofs. *)
 From VLib Require Import CaseLib.
-From C09 Require Import Model.
+From C09 Require Import Model ModelIlv ModelFlat.
 
 Definition outcome_eqb (a b : outcome) : bool :=
   match a, b with
@@ -111,7 +111,20 @@ Inductive case :=
 (* a sequence of bulks on ONE client object: for every bulk its payload identifier, scripts,
    observed orders / context expiry, result and the visits logged while it ran (a call's payload
    identifier is that of the bulk whose bytes it carried) *)
-| CSeq (tries : nat) (bs : list bulk_obs).
+| CSeq (tries : nat) (bs : list bulk_obs)
+(* one bulk on gated replicas: d0 = the request context was done on entry; sch = per shard visit
+   (short-circuited ones included) the schedule the harness OBSERVED: which replica call began
+   (looked at the context) / returned when, and where the context was cancelled (an EExpire at
+   the end of a visit's schedule = at the visit boundary / in the back-off after it); impl_acs =
+   per visit, the replicas whose STORE accepted this bulk's payload (the fakes' own accept logs,
+   ascending; 100 + r = replica r accepted other bytes) *)
+| CIlv (tries : nat) (cin hin : list shard_in) (cord hord : list (list nat)) (d0 : bool)
+       (sch : list (list ev)) (impl_ok : bool) (impl_log : list visit) (impl_acs : list (list nat))
+(* a ragged tier with a shard that has more replicas than the last one: verdict 0 = nil,
+   1 = error, 2 = StoreDocuments panicked (index out of range); the log ends with the calls of the
+   goroutines started before the panic *)
+| CRagged (tries : nat) (cin hin : list shard_in) (cord hord : list (list nat))
+          (impl_verdict : nat) (impl_log : list visit).
 
 (* an order is legal iff it is a permutation of 0..n-1 *)
 Definition legal_order (n : nat) (o : list nat) : bool :=
@@ -130,8 +143,74 @@ Fixpoint all2 {A B} (f : A -> B -> bool) (a : list A) (b : list B) : bool :=
   | _, _ => false
   end.
 
+(* ---- interleaved visits: store-side view and the rules about an expired context *)
+Definition acc_visit (t : tier) (s r : nat) (va : visit * list nat) : bool :=
+  tier_eqb (v_tier (fst va)) t && Nat.eqb (v_shard (fst va)) s && existsb (Nat.eqb r) (snd va).
+Definition has_acc (t : tier) (s r : nat) (log : list visit) (acs : list (list nat)) : bool :=
+  existsb (acc_visit t s r) (combine log acs).
+Definition full_shard_s (t : tier) (tin : list shard_in) (log : list visit) (acs : list (list nat)) (s : nat) : bool :=
+  forallb (fun r => has_acc t s r log acs) (seq 0 (nreps tin s)).
+(* (A') acknowledgement by the stores' own logs: a configured tier has a shard ALL of whose
+   replicas' stores accepted the payload *)
+Definition spec_acks (t : tier) (tin : list shard_in) (log : list visit) (acs : list (list nat)) : bool :=
+  match tin with
+  | [] => true
+  | _ => existsb (full_shard_s t tin log acs) (seq 0 (length tin))
+  end.
+(* (D) a call that returned success reached a store that accepted *)
+Definition stored_ok (log : list visit) (acs : list (list nat)) : bool :=
+  all2 (fun v a => forallb (fun c => negb (accepted (c_out c)) || existsb (Nat.eqb (c_rep c)) a) (v_calls v)) log acs.
+(* (E) in every visit that begins after the context became done, every call returns the
+   context's error and no store accepts anything *)
+Fixpoint post_expiry_ok (d : bool) (sch : list (list ev)) (log : list visit) (acs : list (list nat)) : bool :=
+  match log, acs with
+  | [], [] => true
+  | v :: log', a :: acs' =>
+      (if d then forallb (fun c => outcome_eqb (c_out c) OCtx) (v_calls v) && match a with [] => true | _ => false end
+       else true)
+      && post_expiry_ok (d || has_expire (hd [] sch)) (tl sch) log' acs'
+  | _, _ => false
+  end.
+Definition spec_ok_ilv (pay : N) (cin hin : list shard_in) (d0 : bool) (sch : list (list ev))
+           (ok : bool) (log : list visit) (acs : list (list nat)) : bool :=
+  (if ok then spec_ack pay Cold cin log && spec_ack pay Hot hin log
+              && spec_acks Cold cin log acs && spec_acks Hot hin log acs else true)
+  && skips_ok pay cin hin [] log
+  && stored_ok log acs
+  && post_expiry_ok d0 sch log acs.
+
+(* ---- ragged tiers: the run of the matrix model, cut at the first executed visit of a shard that
+   is wider than its tier's status window (ModelFlat.v: that visit panics after starting the
+   goroutines of the replicas below the window length) *)
+Definition tier_R (tin : list shard_in) : nat := replicas_cnt (map (fun x => length (snd x)) tin).
+Definition wide_shard (R : nat) (tin : list shard_in) (s : nat) : bool := (0 <? R) && (R <? nreps tin s).
+Fixpoint cut_log (cin hin : list shard_in) (log : list visit) : list visit * bool :=
+  match log with
+  | [] => ([], false)
+  | v :: rest =>
+      let tin := tin_of (v_tier v) cin hin in
+      let R := tier_R tin in
+      if negb (v_short v) && wide_shard R tin (v_shard v)
+      then ([mkVisit (v_tier v) (v_shard v) false (filter (fun c => c_rep c <? R) (v_calls v))], true)
+      else let '(l, p) := cut_log cin hin rest in (v :: l, p)
+  end.
+
 Definition case_agrees (c : case) : bool :=
   match c with
+  | CIlv tries cin hin cord hord d0 sch impl_ok impl_log impl_acs =>
+      let '(s, _, log, acs, ok) := store_documents_x tries the_pay cin hin cord hord d0 sch in
+      forallb (legal_order (length cin)) cord && forallb (legal_order (length hin)) hord
+      && Bool.eqb ok impl_ok && list_eqb visit_eqb log impl_log
+      && list_eqb (list_eqb Nat.eqb) acs impl_acs
+      && match cold_ord s, hot_ord s with [], [] => true | _, _ => false end
+  | CRagged tries cin hin cord hord impl_verdict impl_log =>
+      let '(s, log, ok) := store_documents tries the_pay cin hin cord hord None in
+      let '(clog, p) := cut_log cin hin log in
+      forallb (legal_order (length cin)) cord && forallb (legal_order (length hin)) hord
+      && ((* the code as it is *)
+          (Nat.eqb impl_verdict (if p then 2 else if ok then 0 else 1) && list_eqb visit_eqb clog impl_log)
+          (* or a client whose status really is a matrix (the latent panic repaired) *)
+          || (Nat.eqb impl_verdict (if ok then 0 else 1) && list_eqb visit_eqb log impl_log))
   | CSeq tries bs => all2 bulk_agrees bs (store_sequence tries (map obs_in bs))
   | CBulk tries cin hin cord hord cancel impl_ok impl_log =>
       let '(s, log, ok) := store_documents tries the_pay cin hin cord hord cancel in
@@ -143,6 +222,16 @@ Definition case_agrees (c : case) : bool :=
 (* implementation output satisfies the property (independent of the model's algorithm) *)
 Definition case_spec_ok (c : case) : bool :=
   match c with
+  | CIlv tries cin hin _ _ d0 sch impl_ok impl_log impl_acs =>
+      spec_ok_ilv the_pay cin hin d0 sch impl_ok impl_log impl_acs
+  | CRagged tries cin hin _ _ impl_verdict impl_log =>
+      (* a panic is outside the property (its quantifier is over uniform tiers): nothing is
+         acknowledged; it is compared with ModelFlat's prediction only *)
+      match impl_verdict with
+      | 0 => spec_ack the_pay Cold cin impl_log && spec_ack the_pay Hot hin impl_log && skips_ok the_pay cin hin [] impl_log
+      | 1 => skips_ok the_pay cin hin [] impl_log
+      | _ => true
+      end
   | CSeq tries bs =>
       forallb (fun b => spec_ok tries (b_pay b) (b_cin b) (b_hin b) (b_cancel b) (b_ok b) (b_log b)) bs
   | CBulk tries cin hin _ _ cancel impl_ok impl_log => spec_ok tries the_pay cin hin cancel impl_ok impl_log
